@@ -3,7 +3,9 @@
 //
 //   sem <init>                      scenario kind: semaphore with initial value
 //   thread <op>...                  a thread: s (signal()) | s<n> (signal(n)) | w<d>/<s> (wait(d,s)) | a<d>/<s> (try_acquire(d,s))
-//   barrier <mutex|spin|spiny> <n> <gens>   scenario kind: n threads cross the barrier gens times
+//   barrier <mutex|spin|spiny> <n> <gens> [act=<k>]   scenario kind: n threads cross the barrier gens times; the
+//                                   action is a multi-step action: note actB<g>, k scheduler yields, a write of a
+//                                   per-generation value, note actE<g>  (default k = 0)
 //                                   (spin = wait(), spiny = wait_yield())
 //   run seed=<n> [stick=<0..255>] [spur=<k>] [max=<steps>] [sched=<csv>]
 //   explore runs=<n> [spur=<k>]     depth-first enumeration of all schedules (up to n runs);
@@ -43,7 +45,7 @@ struct Scenario {
     size_t init = 0;
     std::vector<std::vector<SemOp>> threads;
     std::string bkind;
-    size_t n = 0, gens = 0;
+    size_t n = 0, gens = 0, act_yields = 0;
 };
 
 static Scenario sc;
@@ -129,14 +131,16 @@ struct BarRun {
     tlx::ThreadBarrierSpin* bs = nullptr;
     std::vector<size_t> entered, left;           // per thread index (tid-1)
     std::vector<std::vector<int>> arrivals;      // per generation: threads in internal arrival order
-    std::vector<size_t> actions;                 // per generation
+    std::vector<size_t> actions;                 // per generation: action_begin events
+    std::vector<size_t> ended;                   // per generation: action_end events
+    std::vector<long> value;                     // per generation: what the action writes
     size_t action_calls = 0;
 };
 static BarRun* br = nullptr;
 
 static void bar_action(int me) {
     size_t g = br->action_calls++;
-    Sched::get().note("act" + std::to_string(g));
+    Sched::get().note("actB" + std::to_string(g));
     if (g >= sc.gens) { viol("action ran " + std::to_string(g + 1) + " times for " + std::to_string(sc.gens) + " generations"); return; }
     br->actions[g]++;
     for (size_t t = 0; t < sc.n; ++t) {
@@ -145,6 +149,19 @@ static void bar_action(int me) {
     }
     if (br->arrivals[g].size() != sc.n || br->arrivals[g].back() != me)
         viol("action of generation " + std::to_string(g) + " ran in thread " + std::to_string(me) + " which is not the last arriver");
+    // the action takes time: scheduling points inside it; nobody may be released before it has ended
+    for (size_t k = 0; k < sc.act_yields; ++k) {
+        Sched::get().yield();
+        if (Sched::get().aborting()) return;
+    }
+    for (size_t t = 0; t < sc.n; ++t)
+        if (br->left[t] > g) {
+            viol("thread " + std::to_string(t + 1) + " left generation " + std::to_string(g) + " before the action of that generation ended");
+            break;
+        }
+    br->value[g] = 1000 + static_cast<long>(g);
+    br->ended[g]++;
+    Sched::get().note("actE" + std::to_string(g));
 }
 
 static void bar_thread() {
@@ -167,6 +184,9 @@ static void bar_thread() {
             }
         if (br->actions[g] != 1)
             viol("thread " + std::to_string(me) + " left generation " + std::to_string(g) + " after " + std::to_string(br->actions[g]) + " action calls");
+        if (br->ended[g] != 1 || br->value[g] != 1000 + static_cast<long>(g))
+            viol("thread " + std::to_string(me) + " left generation " + std::to_string(g) + " before the action of that generation ended (its write is not visible: value " +
+                 std::to_string(br->value[g]) + ")");
         br->left[idx] = g + 1;
         S.note("left" + std::to_string(g));
     }
@@ -268,7 +288,7 @@ static std::string execute(const RunParams& p, bool tail_zero) {
         if (sc.bkind == "mutex") bm.reset(new tlx::ThreadBarrierMutex(sc.n)); else bs.reset(new tlx::ThreadBarrierSpin(sc.n));
         run.bm = bm.get(); run.bs = bs.get();
         run.entered.assign(sc.n, 0); run.left.assign(sc.n, 0);
-        run.arrivals.assign(sc.gens + 1, {}); run.actions.assign(sc.gens + 1, 0);
+        run.arrivals.assign(sc.gens + 1, {}); run.actions.assign(sc.gens + 1, 0); run.ended.assign(sc.gens + 1, 0); run.value.assign(sc.gens + 1, -1);
         br = &run;
         S.on_stuck = [](const std::vector<detsched::Blocked>& blocked) {
             for (const auto& b : blocked)
@@ -287,7 +307,7 @@ static std::string execute(const RunParams& p, bool tail_zero) {
         detsched::End e = S.run(bar_main);
         if (e == detsched::End::Done) {
             for (size_t g = 0; g < sc.gens; ++g)
-                if (run.actions[g] != 1) { viol("generation " + std::to_string(g) + " had " + std::to_string(run.actions[g]) + " action calls"); break; }
+                if (run.actions[g] != 1 || run.ended[g] != 1) { viol("generation " + std::to_string(g) + " had " + std::to_string(run.actions[g]) + " action begin(s) and " + std::to_string(run.ended[g]) + " action end(s)"); break; }
             for (size_t t = 0; t < sc.n; ++t)
                 if (run.left[t] != sc.gens) { viol("thread " + std::to_string(t + 1) + " finished after " + std::to_string(run.left[t]) + " generations"); break; }
         }
@@ -353,10 +373,14 @@ int main(int argc, char** argv) {
             bool ok = true;
             for (size_t i = 1; i < t.size(); ++i) { SemOp o; if (!parse_semop(t[i], o)) ok = false; else ops.push_back(o); }
             if (ok) { sc.threads.push_back(ops); out = "ok"; }
-        } else if (t[0] == "barrier" && t.size() == 4 && (t[1] == "mutex" || t[1] == "spin" || t[1] == "spiny")) {
+        } else if (t[0] == "barrier" && (t.size() == 4 || t.size() == 5) && (t[1] == "mutex" || t[1] == "spin" || t[1] == "spiny")) {
             size_t n, g;
-            if (small_num(t[2], 6, n) && small_num(t[3], 8, g) && n >= 1) {
-                sc = Scenario(); sc.kind = Scenario::Barrier; sc.bkind = t[1]; sc.n = n; sc.gens = g; out = "ok";
+            uint64_t k = 0;
+            bool ok = small_num(t[2], 6, n) && small_num(t[3], 8, g) && n >= 1;
+            if (t.size() == 5 && !(get_u64(t[4], "act", k) && k <= 4)) ok = false;
+            if (ok) {
+                sc = Scenario(); sc.kind = Scenario::Barrier; sc.bkind = t[1]; sc.n = n; sc.gens = g;
+                sc.act_yields = static_cast<size_t>(k); out = "ok";
             }
         } else if (t[0] == "run") {
             out = do_run(t);
